@@ -61,3 +61,6 @@ func (ro *RedisOutput) VerifSendCmdsBatch(wait usync.WaitCloser, conn client.Red
 
 // VerifSetStartDb sets the database a resumed run re-selects.
 func (ro *RedisOutput) VerifSetStartDb(db int) { ro.startDbId = db }
+
+// VerifGC runs one disk collector pass synchronously.
+func (sc *StoreChannel) VerifGC() { sc.storer.VerifGC() }
